@@ -510,3 +510,293 @@ vharness! {
         assert!(!matches!(r, Ok(Some(_))));
     }
 }
+
+// ===================================================================================================
+// C02 body layer (MQTT 3.1.1): the per-type decoders on ARBITRARY bytes.
+// For each type: never panics; acceptance == the specification's well-formedness predicate
+// evaluated on the raw bytes (with the decoder's documented leniencies spelled out); whatever is
+// accepted is stable (re-encode, decode again, same packet).
+// ===================================================================================================
+use crate::vh::spec_utf8;
+
+/// encode a decoded packet again and decode the result: must give the same packet
+fn stable3(p: &Packet, first: u8) -> bool {
+    match enc(Encoded::Packet(p.clone())) {
+        Ok(out) => dec_body(&out, first) == Ok(p.clone()),
+        Err(_) => false,
+    }
+}
+
+macro_rules! bd3_ack {
+    ($name:ident, $variant:ident, $first:expr) => {
+        vharness! {
+            fn $name() unwind(6) {
+                let data: [u8; 4] = vk::any_bytes::<4>();
+                let len = vk::any_len(4);
+                let r = decode::decode_packet(vk::bytes_of(data, len), $first);
+                // 3.4/3.5/3.6/3.7/3.11: Remaining Length is exactly 2, the packet identifier is non-zero
+                let want_ok = len == 2 && (data[0] != 0 || data[1] != 0);
+                assert!(r.is_ok() == want_ok);
+                if let Ok(p) = &r {
+                    let id = NonZeroU16::new(((data[0] as u16) << 8) | data[1] as u16).unwrap();
+                    assert!(*p == Packet::$variant { packet_id: id });
+                    assert!(stable3(p, $first));
+                }
+                vcover!(r.is_ok(), "accepted");
+                vcover!(r.is_err() && len == 2, "zero packet id rejected");
+                vcover!(r.is_err() && len == 3, "trailing byte rejected");
+            }
+        }
+    };
+}
+//@ props: C02
+//@ tier: quick
+//@ functions: v3 decode::decode_packet, decode_ack, NonZeroU16::decode
+//@ bounds: every body of 0..=4 arbitrary bytes
+//@ desc: v3 PUBACK body: accepted iff exactly 2 bytes with a non-zero id; zero id, truncation and trailing bytes are errors; stable
+bd3_ack!(bd3_puback, PublishAck, 0x40);
+//@ props: C02
+//@ tier: quick
+//@ functions: v3 decode::decode_packet, decode_ack
+//@ bounds: every body of 0..=4 arbitrary bytes
+//@ desc: v3 PUBREC body (as bd3_puback)
+bd3_ack!(bd3_pubrec, PublishReceived, 0x50);
+//@ props: C02
+//@ tier: quick
+//@ functions: v3 decode::decode_packet, decode_ack
+//@ bounds: every body of 0..=4 arbitrary bytes
+//@ desc: v3 PUBREL body (as bd3_puback)
+bd3_ack!(bd3_pubrel, PublishRelease, 0x62);
+//@ props: C02
+//@ tier: quick
+//@ functions: v3 decode::decode_packet, decode_ack
+//@ bounds: every body of 0..=4 arbitrary bytes
+//@ desc: v3 PUBCOMP body (as bd3_puback)
+bd3_ack!(bd3_pubcomp, PublishComplete, 0x70);
+//@ props: C02
+//@ tier: quick
+//@ functions: v3 decode::decode_packet, decode_ack
+//@ bounds: every body of 0..=4 arbitrary bytes
+//@ desc: v3 UNSUBACK body (as bd3_puback)
+bd3_ack!(bd3_unsuback, UnsubscribeAck, 0xB0);
+
+vharness! {
+    //@ props: C02
+    //@ tier: quick
+    //@ functions: v3 decode::decode_packet (all 16 first-byte values x reserved flag bits)
+    //@ bounds: every first byte 0..=255 with an EMPTY body
+    //@ desc: v3 dispatch on the first byte: only the exact type+flags values of the specification are recognised (reserved flag bits must match: PUBREL/SUBSCRIBE/UNSUBSCRIBE 0010, others 0000); types 0 and 15 are unsupported; body-less types accept the empty body, all others reject it
+    fn bd3_dispatch() unwind(6) {
+        let first = vk::any_u8();
+        vk::assume(!(first >= 0x30 && first <= 0x3f)); // PUBLISH is handled by the streaming arms (fr3_*)
+        let r = decode::decode_packet(Bytes::new(), first);
+        let known = matches!(first, 0x10 | 0x20 | 0x40 | 0x50 | 0x62 | 0x70 | 0x82 | 0x90 | 0xA2 | 0xB0 | 0xC0 | 0xD0 | 0xE0);
+        if !known {
+            assert!(r == Err(crate::error::DecodeError::UnsupportedPacketType));
+        }
+        let bodyless = matches!(first, 0xC0 | 0xD0 | 0xE0);
+        assert!(r.is_ok() == bodyless);
+        vcover!(r.is_ok(), "ping/disconnect");
+        vcover!(known && r.is_err(), "empty body rejected");
+    }
+}
+
+vharness! {
+    //@ props: C02
+    //@ tier: quick
+    //@ functions: v3 decode::decode_packet, decode_connect_ack_packet, ConnectAckFlags::from_bits, ConnectAckReason::try_from
+    //@ bounds: every body of 0..=4 arbitrary bytes
+    //@ desc: v3 CONNACK body: reserved acknowledge-flag bits and return codes above 6 are errors, fewer than 2 bytes is an error; stable. Leniency of the decoder (not an obligation of the property): bytes after the return code are ignored, code 6 is accepted as Reserved
+    fn bd3_connack() unwind(6) {
+        let data: [u8; 4] = vk::any_bytes::<4>();
+        let len = vk::any_len(4);
+        let r = decode::decode_packet(vk::bytes_of(data, len), 0x20);
+        let want_ok = len >= 2 && data[0] & 0xFE == 0 && data[1] <= 6;
+        assert!(r.is_ok() == want_ok);
+        if let Ok(p) = &r {
+            assert!(stable3(p, 0x20));
+        }
+        vcover!(r.is_ok(), "accepted");
+        vcover!(len >= 2 && data[0] & 0xFE != 0, "reserved flag rejected");
+        vcover!(len >= 2 && data[0] == 1 && data[1] > 6, "unknown return code rejected");
+    }
+}
+
+vharness! {
+    //@ props: C02
+    //@ tier: quick
+    //@ functions: v3 decode::decode_packet, decode_subscribe_ack_packet
+    //@ bounds: every body of 0..=6 arbitrary bytes (at most 4 return codes: capacity of the list model)
+    //@ unwindset: decode_subscribe_ack_packet=6
+    //@ desc: v3 SUBACK body: accepted iff >= 2 bytes, non-zero id and every return code in {0,1,2,0x80}; stable
+    fn bd3_suback() unwind(8) {
+        let data: [u8; 6] = vk::any_bytes::<6>();
+        let len = vk::any_len(6);
+        let r = decode::decode_packet(vk::bytes_of(data, len), 0x90);
+        let mut want_ok = len >= 2 && (data[0] != 0 || data[1] != 0);
+        let mut i = 2;
+        while i < len {
+            if !(data[i] <= 2 || data[i] == 0x80) {
+                want_ok = false;
+            }
+            i += 1;
+        }
+        assert!(r.is_ok() == want_ok);
+        if let Ok(p) = &r {
+            assert!(stable3(p, 0x90));
+        }
+        vcover!(r.is_ok() && len == 6, "four return codes");
+        vcover!(r.is_err() && len == 4, "bad return code");
+    }
+}
+
+/// spec walk of "id (len string [qos])*": Some(true) well-formed
+fn spec_filters_ok(d: &[u8], with_qos: bool) -> bool {
+    let len = d.len();
+    if len < 2 || (d[0] == 0 && d[1] == 0) {
+        return false;
+    }
+    let mut pos = 2;
+    let mut guard = 0;
+    while pos < len && guard < 6 {
+        if pos + 2 > len {
+            return false;
+        }
+        let l = ((d[pos] as usize) << 8) | d[pos + 1] as usize;
+        pos += 2;
+        if pos + l > len {
+            return false; // inner length contradicts the Remaining Length
+        }
+        if !spec_utf8(&d[pos..pos + l]) {
+            return false;
+        }
+        pos += l;
+        if with_qos {
+            if pos >= len {
+                return false;
+            }
+            if d[pos] & 3 == 3 {
+                return false; // QoS 3
+            }
+            pos += 1;
+        }
+        guard += 1;
+    }
+    pos == len
+}
+
+vharness! {
+    //@ props: C02
+    //@ tier: quick
+    //@ functions: v3 decode::decode_packet, decode_subscribe_packet, ByteString::decode, Bytes::decode
+    //@ bounds: every body of 0..=9 arbitrary bytes (at most 3 filters)
+    //@ unwindset: utf8_is_valid=8 decode_subscribe_packet=5 spec_filters_ok=5 spec_utf8=8 slice_eq=8
+    //@ mem: 10  timeout: 1200
+    //@ desc: v3 SUBSCRIBE body: accepted iff non-zero id and every entry is a complete length-prefixed well-formed UTF-8 filter followed by a QoS byte != 3 (upper 6 bits of the options byte are ignored by the decoder: leniency); inner lengths beyond the frame, truncation, invalid UTF-8, QoS 3, zero id are errors; stable
+    fn bd3_subscribe() unwind(11) {
+        let data: [u8; 9] = vk::any_bytes::<9>();
+        let len = vk::any_len(9);
+        let r = decode::decode_packet(vk::bytes_of(data, len), 0x82);
+        let want_ok = spec_filters_ok(&data[..len], true);
+        assert!(r.is_ok() == want_ok);
+        if let Ok(p) = &r {
+            assert!(stable3(p, 0x82));
+        }
+        vcover!(r.is_ok() && len == 9, "accepted at the length bound");
+        vcover!(r.is_err() && len >= 5 && data[2] == 0 && data[3] as usize > len - 4, "inner length beyond the frame");
+    }
+}
+
+vharness! {
+    //@ props: C02
+    //@ tier: quick
+    //@ functions: v3 decode::decode_packet, decode_unsubscribe_packet
+    //@ bounds: every body of 0..=8 arbitrary bytes (at most 3 filters)
+    //@ unwindset: utf8_is_valid=8 decode_unsubscribe_packet=5 spec_filters_ok=5 spec_utf8=8 slice_eq=8
+    //@ mem: 10  timeout: 1200
+    //@ desc: v3 UNSUBSCRIBE body: accepted iff non-zero id and every entry is a complete length-prefixed well-formed UTF-8 filter; stable
+    fn bd3_unsubscribe() unwind(10) {
+        let data: [u8; 8] = vk::any_bytes::<8>();
+        let len = vk::any_len(8);
+        let r = decode::decode_packet(vk::bytes_of(data, len), 0xA2);
+        let want_ok = spec_filters_ok(&data[..len], false);
+        assert!(r.is_ok() == want_ok);
+        if let Ok(p) = &r {
+            assert!(stable3(p, 0xA2));
+        }
+        vcover!(r.is_ok() && len == 8, "accepted at the length bound");
+        vcover!(r.is_err() && len > 2, "rejected");
+    }
+}
+
+/// reads a length-prefixed field at *pos; None if it does not fit
+fn spec_lp(d: &[u8], pos: &mut usize) -> Option<(usize, usize)> {
+    if *pos + 2 > d.len() {
+        return None;
+    }
+    let l = ((d[*pos] as usize) << 8) | d[*pos + 1] as usize;
+    let a = *pos + 2;
+    if a + l > d.len() {
+        return None;
+    }
+    *pos = a + l;
+    Some((a, a + l))
+}
+
+vharness! {
+    //@ props: C02 C19
+    //@ tier: quick
+    //@ functions: v3 decode::decode_packet, decode_connect_packet, ConnectFlags::from_bits, QoS::try_from
+    //@ bounds: every body of 0..=16 arbitrary bytes
+    //@ unwindset: utf8_is_valid=8 spec_utf8=8 slice_eq=8 expect_lp=8
+    //@ mem: 10  timeout: 1200
+    //@ desc: v3 CONNECT body: wrong protocol name or level, reserved flag bit, will QoS 3, truncated or over-long inner fields, invalid UTF-8 and an empty client id without clean session are errors; accepted otherwise; stable. Leniencies of the decoder: bytes after the last field are ignored; will QoS/retain bits without the will flag are ignored
+    fn bd3_connect() unwind(18) {
+        let data: [u8; 16] = vk::any_bytes::<16>();
+        let len = vk::any_len(16);
+        let r = decode::decode_packet(vk::bytes_of(data, len), 0x10);
+        let d = &data[..len];
+        let mut want_ok = len >= 10 && d[0] == 0 && d[1] == 4 && d[2] == b'M' && d[3] == b'Q' && d[4] == b'T' && d[5] == b'T' && d[6] == 4 && d[7] & 1 == 0;
+        if want_ok {
+            let flags = d[7];
+            let mut pos = 10;
+            match spec_lp(d, &mut pos) {
+                Some((a, b)) => {
+                    if !spec_utf8(&d[a..b]) || (a == b && flags & 0x02 == 0) {
+                        want_ok = false;
+                    }
+                }
+                None => want_ok = false,
+            }
+            if want_ok && flags & 0x04 != 0 {
+                match spec_lp(d, &mut pos) {
+                    Some((a, b)) => if !spec_utf8(&d[a..b]) { want_ok = false; },
+                    None => want_ok = false,
+                }
+                if want_ok && spec_lp(d, &mut pos).is_none() {
+                    want_ok = false;
+                }
+                if (flags >> 3) & 3 == 3 {
+                    want_ok = false;
+                }
+            }
+            if want_ok && flags & 0x80 != 0 {
+                match spec_lp(d, &mut pos) {
+                    Some((a, b)) => if !spec_utf8(&d[a..b]) { want_ok = false; },
+                    None => want_ok = false,
+                }
+            }
+            if want_ok && flags & 0x40 != 0 && spec_lp(d, &mut pos).is_none() {
+                want_ok = false;
+            }
+        }
+        assert!(r.is_ok() == want_ok);
+        if let Ok(p) = &r {
+            assert!(stable3(p, 0x10));
+        }
+        vcover!(r.is_ok() && data[7] & 0x04 != 0, "accepted with a will");
+        vcover!(r.is_ok() && data[7] & 0xC0 == 0xC0, "accepted with username and password");
+        vcover!(r == Err(crate::error::DecodeError::ConnectReservedFlagSet), "reserved flag rejected");
+        vcover!(r == Err(crate::error::DecodeError::InvalidClientId), "empty client id without clean session rejected");
+    }
+}
